@@ -55,7 +55,7 @@ Observe ==
   /\ IsEv("obs")
   /\ LET e == Trace[l]  hit == Lookup(e.key) IN
      IF hit = {} THEN
-        /\ memo' = Append(memo, [key |-> e.key, ver |-> ver, cls |-> e.cls, cfg |-> cfg, src |-> e.src])
+        /\ memo' = Append(memo, [key |-> e.key, ver |-> ver, cls |-> e.cls, cfg |-> cfg, src |-> e.src, desc |-> e.desc])
         /\ stat' = [stat EXCEPT !.obs = @ + 1, !.keys = @ + 1]
         /\ UNCHANGED viol
      ELSE LET m == memo[CHOOSE i \in hit : TRUE] IN
@@ -63,7 +63,7 @@ Observe ==
         /\ stat' = [stat EXCEPT !.obs = @ + 1]
         /\ viol' = IF m.cls = e.cls \/ tie THEN viol
                    ELSE viol \cup {<<cur.id, "Agree",
-                          "key=" \o e.key \o " first=" \o m.src \o "[" \o m.cfg \o "] now=" \o e.src \o "[" \o cfg \o "] " \o e.desc>>}
+                          "key=" \o e.key \o " first=" \o m.src \o "[" \o m.cfg \o "] now=" \o e.src \o "[" \o cfg \o "] " \o e.desc \o " <> first: " \o m.desc>>}
   /\ UNCHANGED <<cur, ver, cfg, tie>>
 
 \* a result handed to the caller earlier is compared with its deep snapshot
